@@ -36,8 +36,8 @@ from vlib.common import Violation, HarnessError
 ID = "C12"
 MANIFEST = {
     "technique": "property-based testing / fuzzing (Hypothesis) of the C++ layer under AddressSanitizer+UBSan with per-case process isolation and a per-case watchdog: corner-biased operation campaign, invalid-layout campaign over the check/print/convert entry points, and generated operation histories with buffer scribbling after release",
-    "level_text": "Generated-input exploration in four parts, every case in its own forked process (a signal, sanitizer report or watchdog timeout is attributed to the case; a timeout is re-run once with 10x the budget before it counts as a hang). (A) valid layouts biased to zero-length arrays and buffers, size-0/size-1 regular lists and n-d NumpyArrays x the whole operation catalogue with arguments at the corners (n > size, target 0 / negative / 2**61..2**63-1, axes at and beyond the limits, empty carry, empty/overshooting ranges, combination counts up to and beyond what fits in memory or in int64 under RLIMIT_AS): every call must return or raise ValueError/RuntimeError (std::bad_alloc only for explicitly oversized requests), leave every input buffer byte-identical and the input's value unchanged when re-read; results are printed and converted too. (B) arbitrary, possibly invalid descriptions (one documented rule broken, one integer perturbed, or bold random integers / wrong lengths / truncated contents) x validityerror, tostring, type, form, tojson, iteration (to_list), and the conversions: each must return or raise an ordinary exception; out-of-bounds reads are witnessed by ASan on exact-size buffers. (C) histories: programs of derive / drop / re-read steps over arrays built from malloc'ed buffers owned by the harness and from library-owned copies; every survivor must keep the value recorded at creation after its inputs were dropped, other results were derived, and every buffer whose release the bridge reported was overwritten and freed. (D) tier P, purity: valid layouts wrapped in ak.Array x ~35 Python-level operations (ak.num/flatten/reducers/sort/argsort/pad_none/combinations/cartesian/local_index/is_none/mask/where/concatenate/zip/with_field/values_astype/firsts/singletons/copy/to_buffers+from_buffers/to_list/to_json/str, ufuncs, slices) run by the unmodified src/awkward on the _ext emulation: returns or raises a Python exception, operand buffers byte-identical, operand value unchanged, result walkable. Held on everything generated outside the recorded known findings (conversions of invalid layouts that trust list bounds / record lengths / union indices; rpad count overflow).",
-    "level_note": "Crash / memory / lifetime clauses at the C++ level (src/libawkward + src/cpu-kernels through the /verif bridge), purity also at the Python level on the emulation of awkward._ext; the pybind11 layer cannot be built here, so Python-level reference counting of buffers is modelled by the bridge's release tokens. Trusted: the bridge and akshim, akmodel.decode as the reader of values. Oversized/overflowing requests run only in the plain flavour (ASan aborts on a failing operator new), so an overflowing count that yields a small allocation is seen as a crash or wrong value, not as an ASan report. Content::carry is called with in-range positions only (internal building block). Signed overflow of reducers on extreme values and NaN->int casts are not generated. Not exercised: merge/concatenate, setitem_field, ArrayBuilder, from_json, VirtualArray and partitions as operands (other properties), and the 'fails to return' clause only through the watchdog (no case came near it).",
+    "level_text": "Generated-input exploration in four parts, every case in its own forked process (a signal, sanitizer report or watchdog timeout is attributed to the case; a timeout is re-run once with 10x the budget before it counts as a hang). (A) valid layouts biased to zero-length arrays and buffers, size-0/size-1 regular lists and n-d NumpyArrays (also as slices array[a:b] of the built layout, so that Index offsets and byte offsets are not 0) x the whole operation catalogue incl. merge / mergemany / merge_as_union / setitem_field / getitem_field with a second generated operand or the first one again, with arguments at the corners (n > size, target 0 / negative / 2**61..2**63-1, axes at and beyond the limits, empty carry, empty/overshooting ranges, combination counts up to and beyond what fits in memory or in int64 under RLIMIT_AS): every call must return or raise ValueError/RuntimeError (std::bad_alloc only for explicitly oversized requests), leave every input buffer byte-identical and the input's value unchanged when re-read; results are printed and converted too. (B) arbitrary, possibly invalid descriptions (one documented rule broken, one integer perturbed, or bold random integers / wrong lengths / truncated contents) x validityerror, tostring, type, form, tojson, iteration (to_list), and the conversions: each must return or raise an ordinary exception; out-of-bounds reads are witnessed by ASan on exact-size buffers. (C) histories: programs of derive / drop / re-read steps over arrays built from malloc'ed buffers owned by the harness and from library-owned copies; every survivor must keep the value recorded at creation after its inputs were dropped, other results were derived, and every buffer whose release the bridge reported was overwritten and freed. (D) tier P, purity: valid layouts wrapped in ak.Array x ~35 Python-level operations (ak.num/flatten/reducers/sort/argsort/pad_none/combinations/cartesian/local_index/is_none/mask/where/concatenate/zip/with_field/values_astype/firsts/singletons/copy/to_buffers+from_buffers/to_list/to_json/str, ufuncs, slices) run by the unmodified src/awkward on the _ext emulation: returns or raises a Python exception, operand buffers byte-identical, operand value unchanged, result walkable. Held on everything generated outside the recorded known findings (conversions of invalid layouts that trust list bounds / record lengths / union indices; rpad count overflow).",
+    "level_note": "Crash / memory / lifetime clauses at the C++ level (src/libawkward + src/cpu-kernels through the /verif bridge), purity also at the Python level on the emulation of awkward._ext; the pybind11 layer cannot be built here, so Python-level reference counting of buffers is modelled by the bridge's release tokens. Trusted: the bridge and akshim, akmodel.decode as the reader of values. Oversized/overflowing requests run only in the plain flavour (ASan aborts on a failing operator new), so an overflowing count that yields a small allocation is seen as a crash or wrong value, not as an ASan report. Content::carry is called with in-range positions only (internal building block). Signed overflow of reducers on extreme values and NaN->int casts are not generated. Not exercised: ArrayBuilder, from_json, VirtualArray and partitions as operands (other properties); the 'fails to return' clause only through the watchdog (no generated case on the unchanged tree came near it; a seeded non-terminating kernel loop is caught); the libFuzzer target fuzz_layout of the design was not built. UBSan reports of the kind 'non-zero offset applied to a null pointer' (zero-byte buffers are null pointers in libawkward and are never dereferenced) are tallied, not reported.",
 }
 RULE = ("case = (valid description, operation + corner-biased arguments) | (possibly invalid description, one check/print/convert entry point) | "
         "(1-2 descriptions + a program of <= 30 derive/drop/read steps) | (valid description, Python-level operation); non-trivial = the case hits one of the statement's corners "
